@@ -132,6 +132,16 @@ Definition roundtrip_ok (t len : Z) (v : value) (eo : outcome bytes) (d : option
       else true
   end.
 
+(* ---------- encoding is a function of the value ---------- *)
+(* "the bytes the library produces for a value" / "encoding the value": for EVERY call, and the caller's value is still the
+   value afterwards.  The harness builds the Go value object once, calls DataType.Bytes on it twice and renders the
+   object before and after; the third component of a fn 1 output is
+     (same unchanged ...)   same = 1: the second call had the outcome of the first; unchanged = 1: the object renders
+                            after both calls as before; when one of them is 0 the second outcome and the renderings follow.
+   enc_value is a Gallina function of an immutable value: the model's observation is the constant (1 1), compared exactly. *)
+Definition pure_obs : tree := TL [TI 1; TI 1].
+Definition pure_ok (p : tree) : bool := match p with TL [TI 1; TI 1] => true | _ => false end.
+
 (* ---------- dispatch ---------- *)
 Definition time_of_tree (t : tree) : ctime :=
   match value_of_tree t with Some (VTime c) => c | _ => CT 0 0 0 0 0 0 0 end.
@@ -156,7 +166,8 @@ Definition run_roundtrip (i : tree) : tree :=
   | Some v =>
       let eo := enc_value t v len in
       TL [tree_of_outcome TB eo;
-          match eo with Ok bs => tree_of_outcome tree_of_value (dec_value t bs) | _ => TL [] end]
+          match eo with Ok bs => tree_of_outcome tree_of_value (dec_value t bs) | _ => TL [] end;
+          pure_obs]
   | None => tbad
   end.
 
@@ -180,6 +191,7 @@ Definition value_spec (fn : Z) (i o : tree) : bool :=
       | Some v, Some eo =>
           roundtrip_ok t len v eo
             (match t_nth 1 o with TL [] => None | d => value_outcome_of_tree d end)
+          && pure_ok (t_nth 2 o)
       | _, _ => false
       end
   | 2 =>
